@@ -129,7 +129,7 @@ decided by exhaustive evaluation of the guard over environment x {no, some tagge
                 ctx.violate("C03.tables", "H:keyword-set", &f.file, f.line,
                     &format!("the header parser accepts TAGS keywords {:?}; X.680 §13.2 has exactly AUTOMATIC, EXPLICIT, IMPLICIT", kwset));
             }
-            let ev = Evaluator { consts: &consts, call_hook: &crate::eval::no_hook };
+            let ev = Evaluator { consts: &consts, call_hook: &crate::eval::no_hook, inline: None };
             let mut dom: Vec<(Option<String>, Val)> = vec![(None, Val::none())];
             for k in ["EXPLICIT", "IMPLICIT", "AUTOMATIC"] {
                 dom.push((Some(k.to_string()), Val::some(Val::Str(k.to_string()))));
@@ -232,7 +232,7 @@ decided by exhaustive evaluation of the guard over environment x {no, some tagge
         }
         None
     };
-    let ev = Evaluator { consts: &consts2, call_hook: &hook };
+    let ev = Evaluator { consts: &consts2, call_hook: &hook, inline: None };
 
     // A must be total over 3x3 and return a TaggingEnvironment
     let envs = ["Automatic", "Implicit", "Explicit"];
@@ -574,7 +574,7 @@ fn choice_override(m: &Model, ctx: &mut Ctx, ev0: &Evaluator, render: &dyn Fn(&V
                     }
                     None
                 };
-                let ev = Evaluator { consts: ev0.consts, call_hook: &hook };
+                let ev = Evaluator { consts: ev0.consts, call_hook: &hook, inline: None };
                 let mut env = Env::new();
                 let mut selfv = BTreeMap::new();
                 selfv.insert("tagging_environment".to_string(), Val::ctor(backend_env));
@@ -777,7 +777,7 @@ fn auto_tags(m: &Model, ctx: &mut Ctx, ev0: &Evaluator) {
                     }
                     (ev0.call_hook)(ev, name, args)
                 };
-                let ev = Evaluator { consts: ev0.consts, call_hook: &hook };
+                let ev = Evaluator { consts: ev0.consts, call_hook: &hook, inline: None };
                 let mut env = Env::new();
                 let mut selfv = BTreeMap::new();
                 selfv.insert("tagging_environment".to_string(), Val::ctor(env_name));
